@@ -36,14 +36,24 @@ func (e *Env) tableImmutabilityOf(rule string, dataOnly bool, pkgs ...string) {
 	n := 0
 	bad := map[string]bool{}
 	for _, fn := range ef.All {
-		if fn.Synthetic != "" {
-			continue // package initialiser / wrappers: the only legitimate writers
+		// The synthetic package initialiser is the legitimate writer of its own package's variables - but only with
+		// the stores it contains itself (the variable's initialiser). What it reaches through a call (a
+		// var x = f(table) whose f modifies the table it is handed) or writes in another package is a modification.
+		isInit := fn.Synthetic != ""
+		if isInit && fn.Name() != "init" {
+			continue // wrappers, bound-method thunks
 		}
 		n++
 		fe := ef.Funcs[fn]
+		if fe == nil {
+			continue
+		}
 		for _, w := range fe.Writes {
 			if w.Root.Kind != facts.RGlobal {
 				continue
+			}
+			if w.Fn != nil && w.Fn.Synthetic != "" && w.Fn.Name() == "init" && w.Root.Global.Pkg == w.Fn.Pkg {
+				continue // the variable's own initialiser, wherever it is reached from (initialisers call the imported packages')
 			}
 			if !load.IsModule(w.Root.Global.Pkg.Pkg.Path()) {
 				continue
